@@ -24,4 +24,19 @@ PROPS = {
             "comment-tag bodies are lexically valid (the tag skips tokens, so its body is lexed)",
         ],
     },
+    "C17": {
+        "quick": [
+            {"test": "TestC17Filter", "checks": 40000, "shards": 2},
+            {"test": "TestC17Enum", "kind": "enum", "shards": 4},
+        ],
+        "thorough": [
+            {"test": "TestC17Filter", "checks": 3200000, "shards": 16},
+            {"test": "TestC17Enum", "kind": "enum", "shards": 8},
+        ],
+        "fuzz": [{"fuzz": "FuzzC17", "fuzztime": "60s"}],
+        "assumptions": [
+            "escapejs: the two-character input sequences backslash-r / backslash-n stand for CR / LF and invalid UTF-8 bytes are dropped (pinned by template_tests/filters.tpl)",
+            "iriencode: the exact encoding is compared with the reference only for valid UTF-8 input; for invalid input only the output alphabet is checked",
+        ],
+    },
 }
